@@ -1,0 +1,24 @@
+//go:build verif
+
+package cache
+
+// Contracts checked by /verif/gocv (comment-only file; see /verif/DESIGN.md §3).
+
+// C15. The cache part store changes its cache for a part only when the inner store's change is final: inside a
+// transaction the cache entry is written or dropped by the after-commit hook, never while the transaction can still be
+// rolled back or is invisible to other readers (a reader that refills the cache from the not yet committed inner state
+// would pin the old bytes of a deleted or overwritten part); without a transaction it is changed right after the inner
+// store accepted the change. A failed inner call changes nothing.
+//@ func (*cachePartStore).PutPart
+//@ mode effects
+//@ effect[C15:cache-untouched-while-the-transaction-is-open] never ps.cache.$M(__) if tx != nil
+//@ effect[C15:cache-changed-only-after-the-inner-store] every ps.cache.$M(__) if $M == "Set" || $M == "Remove"
+//@     needs before ps.innerPartStore.$M2(_, _, partstore.PartId($id), __) -> (__, $e) where $e == nil && $id == partId
+//@ effect[C15:in-a-transaction-the-cache-follows-the-commit] every tx.OnAfterCommit($f) where $f != nil
+
+//@ func (*cachePartStore).DeletePart
+//@ mode effects
+//@ effect[C15:cache-untouched-while-the-transaction-is-open] never ps.cache.$M(__) if tx != nil
+//@ effect[C15:cache-changed-only-after-the-inner-store] every ps.cache.$M(__) if $M == "Set" || $M == "Remove"
+//@     needs before ps.innerPartStore.$M2(_, _, partstore.PartId($id), __) -> (__, $e) where $e == nil && $id == partId
+//@ effect[C15:in-a-transaction-the-cache-follows-the-commit] every tx.OnAfterCommit($f) where $f != nil
